@@ -203,7 +203,7 @@ def run(tier):
         f.writelines(plines)
     rec = os.path.join(sc, "session.rec")
     c.log("phase 2 (emission of histories and projects) done at %.0fs" % (time.time() - t0))
-    meta = session_run(v, pcases, hists, rec, os.path.join(sc, "swork"), 30 if thorough else 6, 2 if thorough else 1, seed, after_every=2 if thorough else 3)
+    meta = session_run(v, pcases, hists, rec, os.path.join(sc, "swork"), 30 if thorough else 7, 2 if thorough else 1, seed, after_every=2 if thorough else 3)
     if meta["projects"] < (10 if thorough else 3) or meta["sessions"] == 0:
         raise c.Trouble("too few accepted projects for the session check (vacuous run): %s" % json.dumps(meta))
     c.log("sessions: %d projects (of %d candidates; skipped: %s), %d (project, history) processes" % (meta["projects"], meta["candidates"], meta["skipped"], meta["sessions"]))
